@@ -313,7 +313,9 @@ def r4(ctx):
                 ctx.ob(f"{q}:raise:{cname}", ok, "re-raises a caught exception object" if ok else f"cannot resolve raised class {cname}", idx.loc(node))
                 continue
             is_ws = I.is_subclass(I.base, cls, WS_EXC)
-            ok = bool(is_ws) or (cls == "builtins.ValueError" and q in allowed_valueerror) or cls.endswith("ProxyError")
+            # ValueError is how the package refuses the caller's own arguments (urls, status codes, flag values); whether one can
+            # be driven by *peer* data is decided semantically by R-C17-1, not by where the raise statement lives
+            ok = bool(is_ws) or cls == "builtins.ValueError" or cls.endswith("ProxyError")
             ctx.ob(f"{q}:raise:{cname}", ok, f"raises {cls}" if ok else
                    f"{q} raises {cls}, which is outside the documented WebSocketException hierarchy", idx.loc(node))
     if n < 10:
